@@ -1882,9 +1882,12 @@ class SpaceUpdater(SharedSpaceOperations):
             nodes_removed.append(child)
             self._remove_hook(self._graph, child)
 
-        for _, v in nx.edge_bfs(self.manager._graph, nodes_removed):
-            if v in nodes_removed:  # Sub space in the removed tree
-                continue
+        # Derive again the sub spaces of the removed nodes, bases first
+        subs = set().union(
+            *[nx.descendants(self._graph, n) for n in nodes_removed]
+        ).difference(nodes_removed)
+
+        for v in nx.topological_sort(self._graph.subgraph(subs)):
             self._instructions.append(
                 Instruction(self._update_derived_space, (v,))
             )
